@@ -19,6 +19,11 @@ What is modelled (mirroring `helpers.go`, `main.go: ConvertConfig`, `ruleconvert
 * the rules conversion per field: `transformSamplerMap` (lower-casing, `ClearFrequencySec` and
   integer `AdjustmentInterval` seconds → durations), JSON-tag lookup, `defaults.Set`.
 
+Proposed repairs of five converter defects are modelled behind the flags of `Fixes` (all `false` =
+the code as it is; patches in `/verif/.cache/C38-fix`, oracle switch `fixesDefault` /
+`VERIF_C38_FIXED`); `Props/C38.lean` refutes the full statements for `{}` and proves them for the
+repaired variants.
+
 What is **not** modelled (parameters, `Ext`): the template engine and the YAML text itself.  How
 yaml.v3 reads an unquoted scalar (`Ext.yaml`), `time.ParseDuration` (`Ext.dur`), decimal printing
 (`Ext.fmtNat`) and `strings.ToLower` (`Ext.lower`) are functions supplied per case by the harness
